@@ -71,6 +71,9 @@ CompileOK(c) == /\ (c.ret > 0) = (c.errors > 0)
                 /\ c.ret = c.errors
                 /\ \A i \in DOMAIN c.msgs : c.msgs[i] > 0
                 /\ \A i \in DOMAIN c.lines : c.lines[i] >= 0      \* errors detected at end of input carry line 0
+\* sources with several independent errors, one per rule, each on a line of its own: the callbacks carry exactly those lines, in
+\* order (the parser recovers at the end of a rule; what was noted for one error must not leak into the report of the next)
+ErrLinesOK(c) == c.got = c.expected
 \* after the fault sequence: the health check observed the normal result, and the heap is back to the baseline
 \* and a failure that every operation absorbed (all of them returned what they return without it) changes nothing in what the
 \* scans report: "returns an error or completes correctly"
